@@ -71,6 +71,15 @@ FIXED = [
  ("C17", "fix: a value of a named string type that spells a number is a number for the numeric filters", "{{ t | plus: 1 }} with t = Title(\"2.5\") failed with a conversion error"),
  ("C08", "fix: upcase, downcase, capitalize and escape_once take no argument", "{{ 'a' | upcase: 1 }} was accepted: the four filters were declared with an unused second parameter"),
  ("C08", "fix: an integer index does not read the entry of a string-keyed map", "{{ m[65] }} read m['A'] (Go's integer-to-string conversion takes the integer for a code point)"),
+ ("C10", "fix: the else clause of a case is the fallback wherever it stands", "{% case x %}{% else %}E{% when 1 %}one{% endcase %} with x = 1 rendered E: an else clause that is not the last clause beat every later when"),
+ ("C01", "fix: a struct method that returns two values which are not (value, error)", "{{ t.Zone }} / {{ t.ISOWeek }} on a time.Time panicked (IsNil on an int result); {{ t.MarshalJSON }} for a time in year 10000 re-raised the method's error as a panic"),
+ ("C09", "fix: 'map contains key' finds the key of a map with interface keys", "{% if m contains 'abc' %} was false for a map[any]any holding the key (the shape a YAML decoder gives nested maps) although m['abc'] finds it"),
+ ("C02", "fix: map keys that are equal in value but differ in Go type have a fixed order", "keys such as \"a\" and Title(\"a\") (or 1 and MyInt(1)) of a map[any]T tied when the keys were sorted: Go's random map order showed in for / join / first (also C03)"),
+ ("C14", "fix: a source registered under an unclean path is found by include", "ParseTemplateAndCache(src, \"./tpl/part.html\") stored the source under that spelling while include looks up the cleaned path: never found"),
+ ("C15", "fix: sort and sort_natural by key find the key in every kind of record", "sort: 'k' ignored the key for map[any]any and ordered-map records, sort_natural: 'k' also when the value under the key was a Drop (also C18)"),
+ ("C17", "fix: round with more places than the number has digits returns the number", "{{ 1.5 | round: 9007199254740992 }} printed NaN, {{ 12.75 | round: 24 }} printed 12.749999999999998"),
+ ("C18", "fix: a []byte nested in a map or array that is printed whole prints as its text", "{{ m }} with m = {k: []byte(\"hi\")} printed map[k:[104 105]]"),
+ ("C01", "fix: a range of more than ten million elements is not materialised", "{{ (1..2147483647) | first }} still allocated 32 GiB (the earlier limit was 2^31-1 elements) and the process died of memory exhaustion"),
 ]
 KNOWN = [
  # (property, key, what)
